@@ -11,6 +11,19 @@ CLAIMED = {
    design="5.C17"),
 }
 
+CLAIMED["C04"] = dict(
+   level="proof",
+   text="Contract on templ.URL taken from the property statement: the result is the fixed failure URL, or it is the input and the input lies in URL_BROWSER_OK = not(HAS_SCHEME) | ALLOWED, a regular language written from the WHATWG URL scheme-extraction rules (leading C0/space stripped, TAB/LF/CR removed anywhere, ASCII case-insensitive). The function VC is quantifier-free over the real body (library calls by assumed contracts that turn IndexRune / ContainsRune / EqualFold into language facts; EqualFold's language is the simple-fold closure computed from unicode.SimpleFold on each run, so it contains e.g. the long s and the Kelvin sign); the three 'returned unchanged' paths are closed by regular-language inclusions decided for all strings by a derivative-automaton emptiness search (cross-checked by z3-new's regex solver in the thorough tier). The generator half of the property (href/action only through SafeURL + attribute escaping) is not yet under contract and is not claimed.",
+   note="govc + solvers; URL_BROWSER_OK is my formalisation of the WHATWG scheme state machine (sanity-checked on every run against member/non-member examples, including every input the repository's url_test.go expects to pass); assumed contracts for strings.IndexRune, ContainsRune, EqualFold; character references are not decoded by URL parsing (the value is attribute-escaped on output, C01)",
+   technique="contract-based deductive verification: function VC over the typed AST + regular-language inclusion lemmas (Brzozowski derivatives, z3-new cross-check); sat models / lemma witnesses replayed on the real templ.URL",
+   design="5.C04")
+CLAIMED["C03"] = dict(
+   level="proof",
+   text="Loop contract on the real in-literal escaper runtime.replace (invariant: output so far is in JS_STR_OUT, the unflushed segment consists of pass-through bytes) with the replacement tables extracted mechanically from the source on each run; postcondition result in JS_STR_OUT = (JS_PASS | JS_ESC_UNITS)* where both component languages are computed from the tables. The property is then four regular-language inclusions against specification languages written from the ECMAScript lexical grammar and the HTML script-data tokenizer: the output cannot close a '...', \"...\" or `...` literal, cannot leave a dangling backslash, cannot contain ${, </script or <!--; plus by-compute lemmas that every escape unit denotes exactly the rune it replaces (so the literal evaluates back to the string). All strings, no bound. Positions outside a string literal (json.Marshal output) and the attribute/call forms are covered only through the assumed encoding/json contract and are listed as assumptions; the generator's choice of escaper per position is not yet under contract.",
+   note="govc + solvers; js.lang specification languages (sanity examples checked every run); assumed contract of utf8.DecodeRuneInString; U+2028/U+2029 handled at rune level by two switch arms (checked) but not distinguishable at byte level; encoding/json assumed",
+   technique="contract-based deductive verification: loop invariants on the real function, lemma instantiation, regular-language inclusion lemmas, compute lemmas over the extracted tables; lemma witnesses mapped back to inputs and replayed on the real code",
+   design="5.C03")
+
 NA = {
  "C02": "compiler correctness: needs a formal semantics of templ and of the emitted Go subset; no per-function contract can state 'denotes' without restating the generator (locally expressible parts are claimed under C01/C03/C04/C10/C16/C07)",
  "C08": "whole-formatter semantic preservation needs the same two semantics plus go/format; not expressible as function contracts",
